@@ -585,6 +585,10 @@ func (fv *FuncVerifier) specHelper(st *State, env *Env, call *ast.CallExpr, name
 			return T(SBool, "(exists ((%s Int)) %s)", bn, And(rng, body).S), true
 		}
 		return T(SBool, "(forall ((%s Int)) %s)", bn, Implies(rng, body).S), true
+	case "spec_zeroValue":
+		r := fv.eval(st, env, call.Args[0])
+		z := fv.heapGet(st, "$ghost:reflzero", "(Array Ref Bool)")
+		return App(SBool, "select", z, r), true
 	case "spec_existed":
 		// the object already existed when the function (or literal) under verification was entered
 		r := fv.eval(st, env, call.Args[0])
